@@ -358,10 +358,29 @@ pub fn gen_source_spec(len: usize) -> SourceSpec {
 /// A source sized for `cfg`, at most `max_len` bytes.
 pub fn gen_source(cfg: &Cfg, max_len: usize) -> (SourceSpec, Vec<u8>) {
     let len = gen_len(cfg, max_len);
-    let spec = gen_source_spec(len);
-    let data = expand(&spec);
+    let mut spec = gen_source_spec(len);
+    let mut data = expand(&spec);
+    // workload cap. A tiny minimum chunk size paired with data on which every window hash
+    // matches (long zero runs under BuzHash) yields millions of one-byte chunks: legitimate, but
+    // one run then costs minutes and needs more polls than the livelock budget allows (seen once
+    // in 1.4 M thorough C03 runs: a StepBudget false alarm). The source is cut at a chunk
+    // boundary, so the kept chunks are exactly those of the longer source.
+    let floor = if cfg.algo == Algo::Fixed { cfg.max } else { cfg.min }.max(1);
+    if data.len() / floor > MAX_CHUNKS {
+        let chunks = crate::refmodel::chunker::ref_chunks(cfg, &data);
+        if chunks.len() > MAX_CHUNKS {
+            let (o, l) = chunks[MAX_CHUNKS - 1];
+            data.truncate(o + l);
+            spec.len = data.len();
+            spec.kind = "capped";
+            simkit::count("probe:source-capped-at-chunk-limit");
+        }
+    }
     (spec, data)
 }
+
+/// most chunks one generated source may have
+pub const MAX_CHUNKS: usize = 100_000;
 
 pub fn gen_metadata() -> std::collections::BTreeMap<String, Vec<u8>> {
     t(|t| {
